@@ -8,7 +8,7 @@ META = {
                      "tinyvec 1.13.3's ArrayVec impls (sequence of elements; error on overflow), serde's impls for primitives, Option, char, [T; 16]",
                      "rustc type checking of the derived impls (every field type implements the traits)", "mirfacts exporter (AST walk for helper attributes)"],
     "explanation": "Build with features all_msgs,std,serde. (Z-graph) every crate type reachable from Message through field types has both impls; each "
-                   "pair is derived, or is one of the two reviewed hand-written pairs; (Z-attr) no type on the graph carries a serde attribute other than "
+                   "pair is derived, or is one of the two reviewed hand-written pairs; (Z-attr) no type on the graph carries a serde attribute other than  Every serializer sink of Df88591String is the to_char adaptor (no raw view of the Latin-1 bytes), and the visitors offer every character (no limiting adaptor between chars() and the push loop)."
                    "crate = \"sd\" (attributes read from the expanded AST); (Z-buf) Df88591String::serialize hands all its characters to the serializer "
                    "without an intermediate buffer whose byte capacity is below 2*N (Latin-1 letters above U+007F take two UTF-8 bytes), ArrayString "
                    "serialises its whole deref; (Z-vis) the visitors read chars().take(N) / push until full, which with C17's capacity rules returns "
